@@ -484,7 +484,7 @@ theorem dropTrailing_eq (s : List Vec) (t : Nat)
 
 /-- **The first pass flushes** when the load sequence has two distinct values. -/
 theorem flush_of_twoDistinct (s : List Vec) (h2 : ∃ a ∈ s.map rep, ∃ b ∈ s.map rep, a ≠ b) :
-    (adjustFirstRun (dropTrailingNonReversals s)).2 = true := by
+    (adjustFirstRunR (dropTrailingNonReversals s)).2 = true := by
   obtain ⟨p0, hp0, hp0n⟩ := exists_turn_first_period (s.map rep) h2
   have hsorted : (((findTurns (s.map rep ++ s.map rep)).map (·.1)).filter
       (· < (s.map rep).length)).Pairwise (· < ·) :=
@@ -523,7 +523,7 @@ theorem flush_of_twoDistinct (s : List Vec) (h2 : ∃ a ∈ s.map rep, ∃ b ∈
       · omega
     · rfl
   rw [hdrop]
-  unfold adjustFirstRun
+  unfold adjustFirstRunR
   simp only [List.map_cons, rep_replicate_zero, List.tail_cons, List.map_take, List.length_cons,
     List.length_take, Nat.add_sub_cancel]
   have hmin : min (t + 1) s.length = t + 1 := by
